@@ -41,6 +41,9 @@ class FlowGen:
         self.nbits = 0
         self.nid = 0
         self.feat = set()
+        # variables that inner functions may use: Cython cannot delete those ("can not delete variable referenced in
+        # nested scope", also for the implicit delete at the end of 'except ... as v'), so they are never deleted
+        self.closure_ok = {v for v in self.vars if self.profile[v] == 'obj' and rng.random() < 0.35}
         self.closure_vars = set()
         self.nloop = 0
         self.stack = []
@@ -78,7 +81,7 @@ class FlowGen:
         if r < 0.36:
             self.feat.add('assign')
             return [ind + '%s = %s' % (v, self.value(v))]
-        if r < 0.44:
+        if r < 0.44 and v not in self.closure_ok:
             self.feat.add('del')
             if rng.random() < 0.5:
                 return [ind + 'del %s' % v]
@@ -218,7 +221,7 @@ class FlowGen:
             return [ind + 'log([(%s, j_) for j_ in range(2)])' % v]
         if k == 'inner':
             v = self.var()
-            if self.profile[v] != 'obj':
+            if v not in self.closure_ok:
                 return self.leaf(ind)
             self.closure_vars.add(v)
             n = self.newid()
@@ -226,11 +229,11 @@ class FlowGen:
                 self.feat.add('closure-read')
                 return [ind + 'def rd%d():' % n, i2 + 'return %s' % v, ind + 'log(rd%d())' % n]
             self.feat.add('nonlocal-write')
-            op = rng.choice(['%s = 5' % v, 'del %s' % v])
+            op = rng.choice(['%s = 5' % v, '%s = None' % v])
             return [ind + 'def wr%d():' % n, i2 + 'nonlocal %s' % v, i2 + op, ind + 'wr%d()' % n]
         if k == 'exc_as':
             v = self.var()
-            if self.profile[v] != 'obj':
+            if self.profile[v] != 'obj' or v in self.closure_ok:
                 return self.leaf(ind)
             self.feat.add('except-as')
             return [ind + 'try:', i2 + 'if %s:' % self.bit(), i2 + '    raise ValueError(%d)' % self.newid(),
